@@ -269,6 +269,9 @@ void harness(void)
         /* lengths are fixed by the position in the shape, contents stay symbolic: keeps the length bytes of the
            output concrete so that the parse-back has concrete control flow */
         if (calls[k].kind == 8 || calls[k].kind == 9) calls[k].len = (k % 3 == 0) ? 2 : ((k % 3 == 1) ? 1 : 0);
+#ifdef RT_STRLEN
+        if (calls[k].kind == 8) calls[k].len = RT_STRLEN;      /* all names / strings of one length: equal-length names, content symbolic */
+#endif
         if (calls[k].len > SRCMAX) calls[k].len = SRCMAX;
 #endif
     }
